@@ -15,7 +15,7 @@ MANIFEST_TEXT = ("Lean 4 theorems (28, all sizes/entries/indices/store states) a
                  "Tied to the source on every run: _common (both as configured with just-in-time FieldVector classes and with "
                  "DUNE_ENABLE_PYTHONMODULE_PRECOMPILE: FieldVector_double_0..14 from registerfvector.cc), _typeregistry and the JIT modules "
                  "(FieldVector<double,n>, TupleVector<...>, two NumPyVector algorithms) are rebuilt from the current working tree's sources "
-                 "whenever any file they depend on changed, the current python/dune package is imported, and >=7000 seeded operation programs "
+                 "whenever any file they depend on changed, the current python/dune package is imported, and >=32000 seeded operation programs "
                  "per run are executed on the real bindings, on the Lean model and on an independent plain-Python-list shadow.")
 MANIFEST_NOTE = ("Partial by nature: CPython, pybind11 (casting/overload resolution) and NumPy are exercised, not modelled; values are "
                  "integer-valued doubles |x|<=2^24; FieldVector sizes 1,2,3,4,5,6,9 just-in-time generated and 0..14 precompiled, five tuple "
@@ -59,9 +59,9 @@ def batches(tier, seed):
     """two builds of the package are driven: `jit` (as /repo/_build configures _common: every FieldVector class is generated
     just in time) and `pre` (_common with DUNE_ENABLE_PYTHONMODULE_PRECOMPILE: FieldVector_double_0..14 precompiled)"""
     if tier == "quick":
-        plan = [("jit", 4000), ("pre", 3000)]
+        plan = [("jit", 20000), ("pre", 12000)]
     else:
-        plan = [("pre" if i % 3 == 2 else "jit", 25000) for i in range(16)]
+        plan = [("pre" if i % 3 == 2 else "jit", 80000) for i in range(16)]
     return [dict(args=["--seed", str(seed * 1000 + i), "--cases", str(n), "--tier", tier, "--variant", v], tag="g%d%s" % (i, v),
                  timeout=(900 if tier == "quick" else 3000)) for i, (v, n) in enumerate(plan)]
 
